@@ -46,12 +46,12 @@ type state struct {
 
 // Result of one controlled execution.
 type Result struct {
-	Deadlock  bool
-	Livelock  bool
-	Panic     string
-	Points    int
-	Threads   int
-	Blocked   []string
+	Deadlock bool
+	Livelock bool
+	Panic    string
+	Points   int
+	Threads  int
+	Blocked  []string
 }
 
 var (
@@ -115,6 +115,19 @@ func Go(f func()) {
 	if st.syncGran {
 		st.schedule("go")
 	}
+}
+
+// CurrentRoot returns the id of the top-level managed goroutine (one started by the driver) that the
+// running goroutine descends from; 0 for the driver itself or when no controlled execution is active.
+func CurrentRoot() int {
+	if !active {
+		return 0
+	}
+	t := s.cur
+	for t.parent > 0 {
+		t = s.threads[t.parent]
+	}
+	return t.id
 }
 
 // Point is an explicit scheduling point (external operations of the code under test).
